@@ -40,7 +40,7 @@ NOTES = (
     "named in its text + deterministic families beyond it (scale thresholds, object histories, structured mid-sized inputs such as "
     "the graph zoo and the longest winding loops, dense parameter sweeps, call spellings, aliasing and two-layer uses of one object); "
     "the exact lists are in each evidence file (coverage.bounds) and in DESIGN.md 7.2 / 7.5; 163 independently written "
-    "property-breaking changes and the checks that report them are in seeded/ and DESIGN.md 7.6."
+    "property-breaking changes and the checks that report them are in seeded/ and DESIGN.md 7.7."
 )
 
 CHECKS = [
